@@ -105,6 +105,8 @@ def run(rep, tier):
                 for name, a in fa.items():
                     asm_writes[name] = a
         rule_globals(rep, m, cname, b)
+        if b.cfg.backend == "asm":
+            rule_asm_statics(rep, b, cname)
         W = write_summaries(m, asm_writes, indirect_const(b))
         rule_footprint(rep, m, cname)
         rule_const_params(rep, m, cname, api, W)
@@ -309,6 +311,55 @@ def rule_buffer_extent(rep, m, cname, build):
         if dd is not None:
             rule_output_range(rep, m, f, dd, cname, rid=rid,
                               why="; the bytes beyond the buffer belong to another object, which a concurrent thread may be using")
+
+
+
+def rule_asm_statics(rep, build, cname):
+    """D1 for the assembly units (they are not in the IR): an assembly file may
+    define storage itself - `.lcomm` / `.comm` symbols, or labels in a writable
+    section (.data, .bss, ...).  Such a symbol is process-wide mutable state that
+    every thread's call shares.  The preprocessed text of every assembly unit
+    of the configuration is scanned for these definitions."""
+    import re
+    from . import asm_x86
+    rid = "C16.D1"
+    writable = re.compile(r"^\.(data|bss|tbss|tdata|sdata|sbss)\b")
+    for u in asm_x86.asm_units(build):
+        text = repo.preprocess(u)
+        if not text.strip():
+            continue
+        sect, line, bad = ".text", 0, []
+        for raw in text.splitlines():
+            mm = re.match(r'#\s*(\d+)\s+"', raw)
+            if mm:
+                line = int(mm.group(1)) - 1
+                continue
+            line += 1
+            t = raw.split("//")[0].strip()
+            if not t or t.startswith("#"):
+                continue
+            mm = re.match(r"\.(lcomm|comm)\s+([.\w$]+)", t)
+            if mm:
+                bad.append((mm.group(2), line, "." + mm.group(1)))
+                continue
+            if re.match(r"\.(text|data|bss)\b", t):
+                sect = "." + t[1:].split()[0]
+                continue
+            mm = re.match(r"\.section\s+([.\w$]+)(?:\s*,\s*\"(\w*)\")?", t)
+            if mm:
+                flags = mm.group(2) or ""
+                sect = mm.group(1) if not ("w" in flags and not writable.match(mm.group(1))) else ".data" + mm.group(1)
+                continue
+            mm = re.match(r"([.\w$]+):", t)
+            if mm and writable.match(sect):
+                bad.append((mm.group(1), line, "section " + sect))
+        if bad:
+            for sym, ln, how in bad:
+                rep.violation(rid, "asm-global:%s" % sym, "%s:%d" % (u.file, ln),
+                              "assembly unit %s defines the writable symbol %s (%s): hidden mutable state shared by all threads" % (
+                                  u.rel, sym, how), config=cname)
+        else:
+            rep.instance(rid, 1, {"config": cname, "assembly_unit": u.rel, "writable_definitions": 0})
 
 
 # ---------------------------------------------------------------------------
